@@ -166,6 +166,9 @@ def check(run, db, tier):
     from .c01 import fresh_rules
     run.group(fresh_rules, run, db, 'C05.grid')
     run.group(babinet_rules, run, db)
+    from .c01 import iczt_rule
+    from .c02 import Proxy as _P
+    run.group(iczt_rule, _P(run, {'C01.conj': 'C05.axisQ'}), db)
     run.require_instances('C05.axisQ', 200)
     run.require_instances('C05.roundtrip', 20)
     run.require_instances('C05.babinet', 2)
